@@ -306,8 +306,25 @@ func (n *Node) run(b *blockchain.Block, f func() error) Result {
 // ProcessResult runs Executer.process on a wire copy of the block with a non-empty peer id (so
 // nothing is published) and reports the error together with what happened to the tip. process
 // returns nil for several "discard" outcomes; check Applied.
+// copyIn is CopyBlock, except that a header set in NextWireHeader (consumed here) replaces the canonical header
+// bytes inside the wire form: the block arrives the way a peer sent it, e.g. NON-canonically encoded.
+func (n *Node) copyIn(b *blockchain.Block) (*blockchain.Block, error) {
+	if n.NextWireHeader == nil {
+		return CopyBlock(b)
+	}
+	raw := &blockchain.RawBlock{Header: n.NextWireHeader, Transactions: [][]byte{}, Assets: [][]byte{}}
+	n.NextWireHeader = nil
+	for _, tx := range b.Transactions {
+		raw.Transactions = append(raw.Transactions, tx.Encode())
+	}
+	for _, a := range b.Assets {
+		raw.Assets = append(raw.Assets, a.Encode())
+	}
+	return blockchain.NewBlock(raw.Encode())
+}
+
 func (n *Node) ProcessResult(b *blockchain.Block) Result {
-	cp, err := CopyBlock(b)
+	cp, err := n.copyIn(b)
 	if err != nil {
 		r := n.run(nil, func() error { return fmt.Errorf("node: block does not decode: %w", err) })
 		return r
